@@ -90,6 +90,11 @@ type MResp struct {
 	Text  string
 	Token string
 	Exit  int32
+	// Sched marks an error the scheduler produces itself (worker
+	// disappeared, no waiting clients, retry limit, queue removed). The
+	// property fixes its cause and status code, not its wording: Text
+	// is the model's description and is not compared.
+	Sched bool
 }
 
 type MOp struct {
@@ -161,6 +166,7 @@ type ExpMsg struct {
 	Code     string
 	Text     string
 	Token    string
+	Sched    bool // scheduler-produced error: wording not compared
 	Optional bool // may or may not be present (both ready select cases)
 }
 
@@ -725,7 +731,7 @@ func (m *Model) removeOperation(o *MOp) {
 		if !t.Completed {
 			m.Sit("last-operation-abandoned:task-cancelled")
 		}
-		m.complete(t, &MResp{Code: "Canceled", Text: "Task no longer has any waiting clients"}, false)
+		m.complete(t, &MResp{Code: "Canceled", Text: "Task no longer has any waiting clients", Sched: true}, false)
 	} else {
 		i := o.Inv
 		switch t.Stage() {
@@ -1142,7 +1148,7 @@ func (m *Model) removeStaleWorker(w *MWorker, removalTime time.Time) {
 	w.Terminating = true
 	if t := w.Task; t != nil {
 		m.Sit("timeout:worker-while-executing")
-		m.complete(t, &MResp{Code: "Unavailable", Text: fmt.Sprintf("Worker %s disappeared while task was executing", w.Key)}, false)
+		m.complete(t, &MResp{Code: "Unavailable", Text: fmt.Sprintf("Worker %s disappeared while task was executing", w.Key), Sched: true}, false)
 	} else {
 		m.Sit("timeout:worker-while-idle")
 	}
@@ -1172,7 +1178,7 @@ func (m *Model) removeSCQ(scq *MSCQ) {
 	if scq.Root.isQueued() {
 		m.Sit("timeout:size-class-queue-removed-with-queued-tasks")
 	}
-	m.cancelAllQueued(scq.Root, &MResp{Code: "Unavailable", Text: "Workers for this instance name, platform and size class disappeared while task was queued"})
+	m.cancelAllQueued(scq.Root, &MResp{Code: "Unavailable", Text: "Workers for this instance name, platform and size class disappeared while task was queued", Sched: true})
 	scq.removed = true
 	pq := scq.PQ
 	for k, s := range pq.SCQs {
@@ -1222,6 +1228,7 @@ func (m *Model) msgFor(o *MOp) ExpMsg {
 		e.Code = t.Resp.Code
 		e.Text = t.Resp.Text
 		e.Token = t.Resp.Token
+		e.Sched = t.Resp.Sched
 	}
 	return e
 }
@@ -1672,7 +1679,7 @@ func (m *Model) getCurrentOrNextTask(sy *MSync, blocking bool) {
 			return
 		}
 		m.Sit("retry-limit:task-failed-after-too-many-attempts")
-		m.complete(t, &MResp{Code: "Internal", Text: fmt.Sprintf("Attempted to execute task %d times, but it never completed. This task may cause worker %s to crash.", t.RetryCount+1, w.Key)}, false)
+		m.complete(t, &MResp{Code: "Internal", Text: fmt.Sprintf("Attempted to execute task %d times, but it never completed. This task may cause worker %s to crash.", t.RetryCount+1, w.Key), Sched: true}, false)
 	}
 	m.getNextTask(sy, blocking)
 }
